@@ -167,7 +167,8 @@ class Report:
             json.dump(ev, fh, indent=1)
         os.replace(path + '.tmp%d' % os.getpid(), path)
         if broken:
-            return 2
+            # a violation already decided stands (it was found on code that was analysed); only a run without one is "analysis broken"
+            return 1 if new else 2
         return 1 if new else 0
 
 
